@@ -298,7 +298,13 @@ impl Campaign for C03c {
             4 => BodyPlan::ToEof { buf: 1 << 20 },
             _ => BodyPlan::Mixed { sizes: vec![1, 1, 1, 2, 1], buf: *g.pick(&[7usize, 1024, 8192]) },
         };
-        sc.programs.insert(id.clone(), Program { delay: 0, after: vec![], body, delay2: 0, finish: Finish::Respond(RespSpec::simple(200, token_body(&id, 5))) });
+        let via_stream = upgrade && g.chance(1, 2);
+        if via_stream {
+            // read the rest of the connection through the stream returned by Request::upgrade
+            sc.programs.insert(id.clone(), Program { delay: 0, after: vec![], body: BodyPlan::None, delay2: 0, finish: Finish::Upgrade { proto: "sim".into(), resp: RespSpec::simple(101, vec![]), ops: vec![StreamOp::ReadToEof] } });
+        } else {
+            sc.programs.insert(id.clone(), Program { delay: 0, after: vec![], body, delay2: 0, finish: Finish::Respond(RespSpec::simple(200, token_body(&id, 5))) });
+        }
         sc.programs.insert("c0r1".into(), Program::respond(200, b"m".to_vec()));
         sc.receivers = loop_receivers(1, if g.chance(1, 2) { Dispatch::Spawn } else { Dispatch::Inline });
         sc.note = format!("C03 index {} framing={} len={}", index, tag, len);
@@ -321,7 +327,11 @@ impl Campaign for C03c {
             Ev::Delivered { id: i, head, .. } if *i == id => Some(head.clone()),
             _ => None,
         });
-        let (data, eof, err, reads) = match br {
+        let stream_read = out.obs.events.iter().find_map(|e| match e {
+            Ev::StreamRead { id: i, data, eof } if *i == id => Some((data.clone(), *eof, None::<String>, 3usize)),
+            _ => None,
+        });
+        let (data, eof, err, reads) = match br.or(stream_read) {
             Some(b) => b,
             None => {
                 let main = snap(out, "main").unwrap();
